@@ -44,6 +44,8 @@ def run(ctx):
         L4 = set(tables.L4_VERIFY) | {tables.L4_BRUTE}
         for l in L4:
             ctx.anchor(cfg, l)
+        import verdict
+        verdict.rule(ctx, cfg, prog)
         S, off = gate.sound_validators(prog, lv, L4)
         # a verifier certifies only if it cannot answer Ok without having run a check: policy-gated helpers such
         # as maybe_check_after_insertion (Ok when the check policy does not fire) are not certifiers
